@@ -689,7 +689,7 @@ def rule_cyclic_layout(repo: Repo, rep: Report) -> int:
         e = Inliner(md).inline(r.value)
         txt = unparse(e)
         if "count('1')" in txt and "_generator_poly" in txt and "min" not in txt:
-            rep.violation("ADVERTISED-DISTANCE", md, f"return {unparse(r.value)} (= {txt})", "for dimensions above the enumeration limit the weight of g is advertised as the minimum distance; wt(g) is only an UPPER bound on d (g is a codeword), the property needs true d >= advertised", node=r)
+            rep.violation("ADVERTISED-DISTANCE", md, "the weight of the generator polynomial is advertised as the minimum distance", f"`return {unparse(r.value)}` (= {txt}): for dimensions above the enumeration limit the weight of g is advertised as the minimum distance; wt(g) is only an UPPER bound on d (g is a codeword), the property needs true d >= advertised", node=r)
         elif txt == "int(min_weight)":
             rep.ok("ADVERTISED-DISTANCE", md, f"return {unparse(r.value)}", "minimum weight over all non-zero messages (exact)", node=r)
         elif isinstance(r.value, ast.Subscript) and isinstance(r.value.value, ast.Name) and r.value.value.id in cache_names:
@@ -699,7 +699,7 @@ def rule_cyclic_layout(repo: Repo, rep: Report) -> int:
             for a_ in defs_:
                 t2 = unparse(a_.value)
                 if "count('1')" in t2 and "_generator_poly" in t2 and "min" not in t2:
-                    rep.violation("ADVERTISED-DISTANCE", md, f"return {unparse(r.value)} (= {t2})", "for dimensions above the enumeration limit the weight of g is advertised as the minimum distance; wt(g) is only an UPPER bound on d (g is a codeword), the property needs true d >= advertised", node=a_)
+                    rep.violation("ADVERTISED-DISTANCE", md, "the weight of the generator polynomial is advertised as the minimum distance", f"`return {unparse(r.value)}` (= {t2}): for dimensions above the enumeration limit the weight of g is advertised as the minimum distance; wt(g) is only an UPPER bound on d (g is a codeword), the property needs true d >= advertised", node=a_)
                 elif t2 == "int(min_weight)":
                     rep.ok("ADVERTISED-DISTANCE", md, f"{unparse(a_)}", "minimum weight over all non-zero messages (exact)", node=a_)
                 else:
